@@ -373,6 +373,10 @@ func (tbls *TBLS) commitPhase(ctx context.Context, pk []byte) {
 }
 
 func (tbls *TBLS) combineShares() []byte {
+	// OnMsg may still be invoked concurrently (duplicate or out of phase messages)
+	tbls.lock.Lock()
+	defer tbls.lock.Unlock()
+
 	for _, party := range tbls.parties {
 		if party == tbls.Party {
 			continue
